@@ -24,6 +24,8 @@ def H(name, props, config, file, harness_file, obligation, functions, bounds, ti
     T.append(d)
 
 
+UW_MAPS = [("drop_glue::<[http::header::map::Bucket<", 3), ("drop_glue::<[http::header::map::ExtraValue<", 2)]
+
 DEC = ("tonic/src/codec/decode.rs", "tonic/codec_decode.rs")
 DEC_FUNCS = ["tonic::codec::decode::StreamingInner::decode_chunk"]
 
@@ -46,7 +48,53 @@ for n, t in (("0", "quick"), ("1", "quick"), ("6", "quick")):
     H("pf_eof_" + n, ["C07"], "core", *DEC, tier=t,
       obligation="T1a: body ended: leftover bytes => INTERNAL error, none => clean end, never Pending",
       functions=["tonic::codec::decode::StreamingInner::poll_frame"], bounds="all %s-byte leftovers, any state/direction" % n,
-      may_be_uncovered=["unexpected eof"] if n == "0" else ["clean end"])
+      may_be_uncovered=[] if n == "0" else ["clean end"])
+
+ENC = ("tonic/src/codec/encode.rs", "tonic/codec_encode.rs")
+for (p_, k, l_, t, cap) in ((0, 1, 1, "quick", 400), (0, 1, 0, "quick", 400), (3, 1, 2, "quick", 400), (0, 2, 1, "quick", 900),
+                          (6, 2, 2, "thorough", 2400), (5, 2, 0, "thorough", 2400)):
+    H("enc_step_p%d_k%d_l%d" % (p_, k, l_), ["C01", "C06", "C03", "C02"], "core_vb", *ENC, tier=t, cap_s=cap, mem_gb=20,
+      obligation="E2/L3/W1: one poll of EncodedBytes::poll_next from an arbitrary state is equal to the reference batching model: "
+                 "chunk bytes = old buffer ++ reference frames of the messages taken; Pending only when nothing is buffered; an encode "
+                 "failure (over limit / encoder error) or source error is handed out after the frames encoded before it, with no byte of "
+                 "the failed message; exact limit comparison",
+      functions=["tonic::codec::encode::EncodedBytes::poll_next", "tonic::codec::encode::encode_item",
+                 "tonic::codec::encode::finish_encoding", "tonic::codec::buffer::EncodeBuf"],
+      bounds="%d arbitrary pre-buffered bytes, %d symbolic source events (Pending/End/Item/Err) then Pending, messages of %d symbolic "
+             "bytes, limit: any Option<usize>, yield_threshold: any usize, pending error: any" % (p_, k, l_),
+      outside=["messages longer than 2 bytes", "more than 2 source events per poll", "compressed path (see X1)"],
+      unwindset=UW_MAPS + [("codec::encode::EncodedBytes<", k + 2)])
+H("enc_finish_slice", ["C06", "C03", "C01"], "core", *ENC,
+  obligation="L2/W1: finish_encoding writes [0, BE32(len)] and leaves the payload alone iff len <= limit, else OUT_OF_RANGE",
+  functions=["tonic::codec::encode::finish_encoding"], bounds="all slices of length 5..=12 (symbolic length), any Option<usize> limit")
+
+ST = ("tonic/src/status.rs", "tonic/status.rs")
+H("st_code_from_bytes", ["C04"], "core", *ST, obligation="H1: Code::from_bytes == reference grammar ('0'..'16' canonical decimal, else UNKNOWN)",
+  functions=["tonic::Code::from_bytes"], bounds="all byte strings of length 0..=3 (symbolic length)")
+H("st_code_roundtrip", ["C04"], "core", *ST, obligation="H1: for all 17 codes: from_i32/i32::from agree with the gRPC table, header text is the "
+  "canonical decimal, from_bytes(to_header_value(c)) == c", functions=["tonic::Code::to_header_value", "tonic::Code::from_bytes", "tonic::Code::from_i32"],
+  bounds="all 17 codes")
+H("st_code_from_i32_total", ["C04"], "core", *ST, obligation="H1: Code::from_i32 total: out-of-range => UNKNOWN",
+  functions=["tonic::Code::from_i32"], bounds="all i32", may_be_uncovered=[])
+H("st_infer_http", ["C04", "C02"], "core", *ST, obligation="H5: infer_grpc_status(None, http_status) == gRPC http-grpc-status-mapping table; 200 => Err(None)",
+  functions=["tonic::status::infer_grpc_status"], bounds="all HTTP status codes 100..=599")
+H("st_h2_reason_map", ["C04"], "transport", *ST, obligation="H6: code_from_h2 over every u32 HTTP/2 error code == PROTOCOL-HTTP2 error table (codes the statement lists)",
+  functions=["tonic::Status::code_from_h2"], bounds="all u32 reason values")
+H("st_to_h2_error", ["C04"], "transport", *ST, obligation="H6: to_h2_error: CANCELLED => CANCEL, everything else INTERNAL_ERROR",
+  functions=["tonic::Status::to_h2_error"], bounds="all 17 codes")
+for n in (1, 2):
+    H("st_fhm_status_%d" % n, ["C04", "C02"], "core", *ST, cap_s=600, stubs=[HTTPH],
+      obligation="H4: from_header_map on a real 1-entry map: code == reference parse of the grpc-status bytes, no panic",
+      functions=["tonic::Status::from_header_map", "tonic::Code::from_bytes", "http::HeaderMap::{insert,get,clone,remove}"],
+      bounds="grpc-status value: all %d-byte header-legal values" % n)
+H("st_fhm_absent", ["C04"], "core", *ST, cap_s=300, stubs=[HTTPH], obligation="H4: no grpc-status => None",
+  functions=["tonic::Status::from_header_map"], bounds="empty map")
+for n, t in ((2, "quick"), (3, "thorough")):
+    H("st_fhm_details_%d" % n, ["C04"], "core", *ST, cap_s=900 if t == "quick" else 2400, tier=t, stubs=[HTTPH],
+      obligation="H4: from_header_map with arbitrary grpc-status-details-bin bytes: never panics; bytes outside the base64 alphabet "
+                 "=> UNKNOWN error status (regression check for the fixed F1 panic)",
+      functions=["tonic::Status::from_header_map", "tonic::util::base64::STANDARD (padding-indifferent)"],
+      bounds="details value: all %d-byte header-legal values; 2-entry map" % n)
 
 
 def select(pid, tier, seed=0):
